@@ -861,6 +861,7 @@ func (m MemoryFeatureSource) Read(options ReadOptions, emit Emit, ctx context.Co
 	ctx, cancel := context.WithCancel(ctx)
 	var wg sync.WaitGroup
 	var cause error
+	var lock sync.Mutex
 	feed := func(goroutine int) {
 		defer wg.Done()
 		for {
@@ -870,7 +871,11 @@ func (m MemoryFeatureSource) Read(options ReadOptions, emit Emit, ctx context.Co
 			case f, ok := <-c:
 				if ok {
 					if err := emit(f, goroutine); err != nil {
-						cause = err
+						lock.Lock()
+						if cause == nil {
+							cause = err
+						}
+						lock.Unlock()
 						cancel()
 					}
 				} else {
